@@ -15,6 +15,7 @@ from pyiron_snippets.dotdict import DotDict
 
 from pyiron_workflow.create import HasCreator
 from pyiron_workflow.mixin.lexical import LexicalParent, _ensure_path_is_not_cyclic
+from pyiron_workflow.mixin.run import ReadinessError
 from pyiron_workflow.node import Node
 from pyiron_workflow.topology import set_run_connections_according_to_dag
 
@@ -208,9 +209,16 @@ class Composite(LexicalParent[Node], HasCreator, Node, ABC):
                 try:
                     receiving(firing)
                 except Exception as e:
-                    # Keep the first error of a receiver: a failed child that gets
-                    # triggered again only refuses to run, which is not the cause
-                    errors.setdefault(receiving.full_label, e)
+                    # Keep the error that tells why the receiver failed: a refusal to
+                    # run (it was not ready yet, or had failed already and got
+                    # triggered again) never displaces the exception of the run that
+                    # did fail, whichever of the two came first
+                    known = errors.get(receiving.full_label)
+                    if known is None or (
+                        isinstance(known, ReadinessError)
+                        and not isinstance(e, ReadinessError)
+                    ):
+                        errors[receiving.full_label] = e
             except IndexError:
                 # The signal queue is empty, but there is still someone running...
                 sleep(self._child_sleep_interval)
